@@ -332,7 +332,7 @@ func (r *Run) Finish() int {
 		"rules":               res,
 		"configurations":      r.Configs,
 		"known_findings":      known,
-		"not_decided":         r.NotDecided,
+		"not_decided":         append([]string{}, r.NotDecided...),
 		"checker_cmd":         fmt.Sprintf("/verif/check %s %s", r.Prop, r.Tier),
 		"trusted_base":        []string{"go/types, go/ssa, VTA call graph (golang.org/x/tools v0.29.0)", "the specification tables transcribed into the checker"},
 	}
@@ -342,13 +342,17 @@ func (r *Run) Finish() int {
 	for k, v := range r.Extra {
 		cov[k] = v
 	}
+	assumptions := append([]string{
+		"go/types, go/ssa and the VTA call graph of golang.org/x/tools v0.29.0 are correct",
+		"the clause decided is a structural necessary condition of the property; the numeric/behavioural remainder listed under not_decided is not claimed",
+	}, r.Assumptions...)
 	ev := map[string]any{
 		"property_id": r.Prop,
 		"tier":        r.Tier,
 		"seed":        r.Seed,
 		"level":       "other",
 		"coverage":    cov,
-		"assumptions": r.Assumptions,
+		"assumptions": assumptions,
 		"wall_s":      time.Since(r.start).Seconds(),
 		"violations":  nviol,
 	}
